@@ -1,5 +1,5 @@
 // ---- model fragment: SDK items used by the RWA registry units (cti, token_binder, doc_manager, irs) that the other
-//      fragments lack (M9, TRUSTED).  Needs fragments core + vec.  Do not list together with `merkle_ext`
+//      fragments lack (M9, TRUSTED).  Needs fragments core + vec + string.  Do not list together with `merkle_ext`
 //      (both define `IntoIterator for Vec<T>`). ----
 
 /// `impl Borrow<T>` arguments of the SDK (`Vec::contains(&self, item: impl Borrow<T>)`): a value or a reference to it
@@ -63,3 +63,9 @@ impl<T> VecIter<T> {
 
 /// `core::cmp::min` at the one type the registry units use it (the translator drops the path prefix); verified, not trusted
 pub fn min(a: u32, b: u32) -> (r: u32) ensures r == (if a <= b { a } else { b }) { if a <= b { a } else { b } }
+
+/// `soroban_sdk::String::len` (needs fragment `string`)
+impl String {
+    #[verifier::external_body]
+    pub fn len(&self) -> (r: u32) ensures r as int == self.s@.len() { unimplemented!() }
+}
